@@ -37,7 +37,12 @@ RULE = (
     "gate_with_auto_swap / gate(contract='swap+split'|'auto-mps') in both site orders with and without swap_back, "
     "gate_nonlocal / gate(contract='nonlocal') / gate_with_submpo with sweep_reverse, one-site gates (unitary and not), "
     "measure (project / remove / get='outcome', in place and on copies), sample_configuration / sample, "
-    "compute_local_expectation_canonical. Non-trivial: the operation moved the centre or changed a tensor's status."
+    "compute_local_expectation_canonical, and the scalar rescalings that do NOT take the record (multiply[_] with spread_over "
+    "1/2/3/8/'all', multiply_each_, psi *= c, psi /= c, psi[i] *= c, psi[i] /= c, normalize; real, negative, complex and modulus-1 "
+    "factors) - inside the recorded range, or outside it followed by a fresh record ('calc' / None / {}) and an immediate "
+    "canonical query; magnetization in directions X, Y, Z, +, -. Circuit layer: CircuitMPS gate sequences with non-unitary raw "
+    "one-qubit gates, record + fidelity_estimate / error_estimate after every gate. Non-trivial: the operation moved the "
+    "centre or changed a tensor's status."
 )
 
 # --------------------------------------------------------------------------- observation
@@ -346,8 +351,14 @@ def gen_op(rng, L, p_bad):
             return {"kind": "measure", "site": L - 1, "remove": True, "renorm": rng.random() < 0.7, "inplace": rng.random() < 0.5, "seed": seed}
     kind = rng.choice(
         ["canon"] * 5 + ["singvals"] * 2 + ["compress_site"] * 2 + ["swap"] * 3 + ["swap_to"] * 2
-        + ["auto_swap"] * 4 + ["submpo"] * 3 + ["gate1"] * 2 + ["measure"] * 2 + ["many"] + ["nocopy_many"]
+        + ["auto_swap"] * 4 + ["submpo"] * 3 + ["gate1"] * 2 + ["measure"] * 2 + ["many"] + ["nocopy_many"] + ["scale"] * 3
     )
+    if kind == "scale":
+        api = rng.choice(["multiply_", "multiply_", "multiply", "multiply_each_", "imul", "itruediv", "site_imul", "site_itruediv",
+                          "site_imul", "normalize"])
+        c = rng.choice([2.0, 0.5, -1.5, -1.0, 1.0, 3.0, [0.6, 0.8], [0.0, 1.0], [1.5, -0.5], [-2.0, 1.0]])
+        return {"kind": "scale", "api": api, "c": c, "spread": rng.choice([1, 2, 3, 8, "all"]), "site": rng.randrange(L),
+                "insert": rng.choice([None, rng.randrange(L)]), "seed": seed}
     if kind == "canon":
         api = rng.choice(["canonicalize_", "canonicalize_", "canonicalize", "ptr_canonical", "local_exp_canonical",
                           "magnetization", "measure_outcome_inplace"])
@@ -359,7 +370,10 @@ def gen_op(rng, L, p_bad):
         else:
             n = rng.choice([1, 1, 2, 2, 3]) if L >= 3 else rng.choice([1, 2])
             where = rng.sample(range(L), n)
-        return {"kind": "canon", "api": api, "where": where, "as_int": len(where) == 1 and rng.random() < 0.7, "seed": seed}
+        op = {"kind": "canon", "api": api, "where": where, "as_int": len(where) == 1 and rng.random() < 0.7, "seed": seed}
+        if api == "magnetization":
+            op["direction"] = rng.choice(["X", "Y", "Z", "Z", "+", "-"])
+        return op
     if kind == "singvals":
         api = rng.choice(["singular_values", "schmidt_values", "entropy", "schmidt_gap", "bipartite_schmidt_state"])
         return {"kind": "singvals", "api": api, "i": rng.randint(1, L - 1), "seed": seed}
@@ -432,16 +446,25 @@ def op_to_coq(op):
         if op["api"] == "measure_outcome_copy":
             return f"ODroppedCopy true {natlit(op['site'])} {natlit(op['site'])}"
         return "ODroppedCopy false 0%nat 0%nat"
+    if k == "scale":
+        return "OScale [" + "; ".join(natlit(x) for x in op["_sites"]) + "]"
+    if k == "fresh":
+        return "OSetRecord " + {"unset": "RUnset", "none": "RNone", "calc": "RCalc"}[op["record"]]
     if k == "many":
         ws = "; ".join(f"({natlit(min(w))}, {natlit(max(w))})" for w in op["terms"])
         return f"OLocalExpMany [{ws}] {blit(op['inplace'])}"
     raise ValueError(k)
 
 
-def is_bad(op, L):
+def is_bad(op, L, pre_rec=None):
     """does the operation fall outside the record theorem's domain (model: not good_b)?
-    Since the fix commits 4980426d / f9934bdc / eb8c2f1e / e1e3f983 / 47017e6a no
-    operation the generator draws does: the theorem covers the whole alphabet."""
+    Since the fix commits every record-taking operation is inside.  The only
+    operations outside are scalar rescalings (which do not take the record) that
+    touch a site outside a recorded pair range: there the CALLER has to start a
+    fresh record, which the harness does right after (kind 'fresh')."""
+    if op["kind"] == "scale" and isinstance(pre_rec, tuple):
+        a, b = pre_rec
+        return any(not (a <= x <= b) for x in op["_sites"])
     return False
 
 
@@ -565,7 +588,8 @@ class Driver:
         self.init_ok = all((not a or o[0] < TOL_ISO) and (not b or o[1] < TOL_ISO)
                            for (f, a, b), o in zip(self.init_sites, obs)) and not any(
             fc.startswith("other") for _, _, fc in obs)
-        self.steps = []  # (op, calc, expectation or None)
+        self.steps = []  # (op, calc, bad, expectation or None)
+        self.record_void = False  # a rescale outside the recorded range: the record is the caller's to renew
         self.calc_seen = None
 
     # -- replay payload ------------------------------------------------------
@@ -602,6 +626,10 @@ class Driver:
             return "submpo:" + op["api"] + (":sweep_reverse" if op["rev"] else "")
         if k == "many":
             return "compute_local_expectation_canonical:inplace=" + str(op["inplace"])
+        if k == "scale":
+            return "scale:" + op["api"] + (":spread_over=" + str(op["spread"]) if op["api"] in ("multiply_", "multiply") else "")
+        if k == "fresh":
+            return "fresh_record:" + op["record"]
         return k
 
     # -- one operation ---------------------------------------------------------
@@ -618,6 +646,11 @@ class Driver:
             raise Stop()
         self.ops_done.append(op)
         self.L_before = self.mps.L
+        if self.record_void and op["kind"] != "fresh":
+            ctx.broken_obligation("harness:record_not_renewed_after_rescale", self.payload())
+            raise Stop()
+        if op["kind"] == "scale":
+            op["_sites"] = self.scaled_sites(op)
         key = self.key_of(op)
         pre_obs = observe(self.mps)
         pre_rec = read_record(self.info)
@@ -652,7 +685,7 @@ class Driver:
                 ctx.violation("calc_current_orthog_center:unsound", f"calc_current_orthog_center returned {calc} but the sites outside are not isometric",
                               self.payload({"calc": calc}))
         if raised is not None:
-            self.steps.append((op, calc, is_bad(op, self.L_before), None))
+            self.steps.append((op, calc, is_bad(op, self.L_before, pre_rec), None))
             ctx.violation(key + ":raised", f"{key} raised {type(raised).__name__}: {str(raised)[:160]} on a valid call with a sound record",
                           self.payload({"record_before": pre_rec}))
             raise Stop()
@@ -663,15 +696,19 @@ class Driver:
                           self.payload({"record_before": pre_rec}))
             raise Stop()
         rec = read_record(self.info)
-        self.steps.append((op, calc, is_bad(op, self.L_before), (rec, obs)))
+        self.steps.append((op, calc, is_bad(op, self.L_before, pre_rec), (rec, obs)))
         changed = rec != pre_rec or [o[2] for o in obs] != [o[2] for o in pre_obs]
         ctx.count((key, self.spec["L"], str(pre_rec), str(rec), tuple(o[2] for o in pre_obs)), changed)
         ctx.bump("op:" + op["kind"])
         if any(o[2].startswith("other") for o in obs):
             ctx.broken_obligation("correspondence:unexpected_flag", {"history": self.payload(), "flags": [o[2] for o in obs]})
             raise Stop()
+        if op["kind"] == "scale" and is_bad(op, self.L_before, pre_rec):
+            self.record_void = True  # not the library's record to keep: the call does not take it
+        elif op["kind"] == "fresh":
+            self.record_void = False
         # the property itself, on the implementation
-        bad = record_violations(rec, obs)
+        bad = [] if self.record_void else record_violations(rec, obs)
         if bad:
             ctx.violation(key + ":stale_record", f"after {key} the record is {rec} but " + "; ".join(bad[:2]),
                           self.payload({"record_before": pre_rec, "record_after": rec}))
@@ -680,6 +717,29 @@ class Driver:
         if badf:
             ctx.violation(key + ":false_flag", f"after {key}: " + "; ".join(badf[:2]), self.payload())
             raise Stop()
+
+    def scaled_sites(self, op):
+        """which site tensors the rescale touches, by the library's own rule: TensorNetwork.multiply
+        takes the first min(N, spread_over) tensors in the network's iteration order"""
+        mps = self.mps
+        L = mps.L
+        order = []
+        for t in mps:
+            (site,) = [i for i in range(L) if mps.site_tag(i) in t.tags]
+            order.append(site)
+        api = op["api"]
+        if api in ("multiply_", "multiply"):
+            k = L if op["spread"] == "all" else min(L, op["spread"])
+            return order[:k]
+        if api in ("imul", "itruediv"):
+            return order[: min(L, 8)]
+        if api == "multiply_each_":
+            return order
+        if api in ("site_imul", "site_itruediv"):
+            return [op["site"] % L]
+        if api == "normalize":
+            return [L - 1 if op["insert"] is None else op["insert"] % L]
+        raise ValueError(api)
 
     def consumer(self, key, ok, what, extra=None):
         if not ok:
@@ -726,11 +786,13 @@ class Driver:
                     self.consumer(api, abs(val - ref) <= TOL_VAL * max(1, abs(ref)), f"local_expectation_canonical {val} vs dense {ref}", {"where": w})
             elif api == "magnetization":
                 d = dims[w[0]]
-                val = complex(mps.magnetization(w[0], info=info))
+                dirn = op.get("direction", "Z")
+                val = complex(mps.magnetization(w[0], dirn, info=info))
                 if small:
-                    Z = np.asarray(qu.spin_operator("Z", S=(d - 1) / 2))
-                    ref = dense_expec(psi0, dims, Z, [w[0]])
-                    self.consumer(api, abs(val - ref) <= TOL_VAL * max(1, abs(ref)), f"magnetization {val} vs dense {ref}", {"site": w[0]})
+                    O = np.asarray(qu.spin_operator(dirn, S=(d - 1) / 2))
+                    ref = dense_expec(psi0, dims, O, [w[0]])
+                    self.consumer(f"magnetization:direction={dirn}", abs(val - ref) <= TOL_VAL * max(1, abs(ref)),
+                                  f"magnetization({w[0]}, {dirn!r}) = {val} vs dense <psi|S_{dirn}|psi> = {ref}", {"site": w[0], "direction": dirn})
             elif api == "measure_outcome_inplace":
                 s = op["seed"] % 1000
                 out = mps.measure(w[0], get="outcome", seed=s, info=info, inplace=True)
@@ -881,6 +943,52 @@ class Driver:
                             cur = cur[x]
                         okc = okc and refcfg == [int(c) for c in cfg]
                     self.consumer(api + ":config", okc, f"{api}: configuration differs from sequential sampling of the dense state with the same seed")
+        elif k == "scale":
+            api = op["api"]
+            c = op["c"]
+            c = complex(c[0], c[1]) if isinstance(c, list) else float(c)
+            if isinstance(c, complex) and not self.cplx:
+                c = abs(c)  # keep real states real
+            want = None
+            if api == "multiply_":
+                mps.multiply_(c, spread_over=op["spread"])
+                want = psi0 * c
+            elif api == "multiply":
+                self.mps = mps.multiply(c, spread_over=op["spread"])
+                want = psi0 * c
+            elif api == "multiply_each_":
+                mps.multiply_each_(c)
+                want = psi0 * c**L
+            elif api == "imul":
+                mps *= c
+                self.mps = mps
+                want = psi0 * c
+            elif api == "itruediv":
+                mps /= c
+                self.mps = mps
+                want = psi0 / c
+            elif api == "site_imul":
+                t = mps[op["site"] % L]
+                t *= c
+                want = psi0 * c
+            elif api == "site_itruediv":
+                t = mps[op["site"] % L]
+                t /= c
+                want = psi0 / c
+            elif api == "normalize":
+                old = mps.normalize(insert=op["insert"])
+                if small:
+                    self.consumer("normalize:returned_norm", abs(complex(old) - nrm2) <= TOL_VAL * max(1.0, nrm2),
+                                  f"normalize returned {old}, dense <psi|psi> = {nrm2}")
+                want = psi0 / np.sqrt(nrm2)
+        elif k == "fresh":
+            r = op["record"]
+            self.info.clear()
+            if r == "none":
+                self.info["cur_orthog"] = None
+            elif r == "calc":
+                self.info["cur_orthog"] = "calc"
+            preserved = True
         elif k == "many":
             terms = {}
             for w in op["terms"]:
@@ -935,6 +1043,16 @@ def run_history(ctx, spec, ops=None, nops=25, p_bad=0.03, hid=0):
                 if D.mps.L < 2:
                     break
                 D.apply(gen_op(rng, D.mps.L, p_bad))
+                if D.record_void:
+                    # a rescale (which does not take the record) touched sites outside the recorded
+                    # range: the caller starts a fresh record, here mostly one the library works out
+                    D.apply({"kind": "fresh", "record": rng.choice(["calc", "calc", "none", "unset"]), "seed": 0})
+                    # ... and uses it straight away, in one of the two sweep directions
+                    if rng.random() < 0.8:
+                        D.apply({"kind": "canon", "api": rng.choice(["canonicalize_", "ptr_canonical", "magnetization", "measure_outcome_inplace"]),
+                                 "where": [rng.randrange(D.mps.L)], "as_int": True, "seed": rng.randrange(1 << 30)})
+                        D.apply({"kind": "singvals", "api": rng.choice(["schmidt_values", "entropy"]), "i": rng.randint(1, D.mps.L - 1),
+                                 "seed": rng.randrange(1 << 30)})
     except Stop:
         pass
     return D
@@ -1103,7 +1221,15 @@ def circuit_stream(ctx):
         gates = []
         ok = True
         for gi in range(rng.randint(4, 16)):
-            if rng.random() < 0.4:
+            raw = None
+            if gi >= 2 and rng.random() < 0.18:
+                # a non-unitary one-qubit operation (damping-like Kraus operator): widens the record to a
+                # genuine range when it acts away from the centre
+                lab = "RAW"
+                q = (rng.randrange(N),)
+                gk = np.random.default_rng(rng.randrange(1 << 30))
+                raw = np.diag([1.0, round(rng.uniform(0.3, 0.8), 3)]) @ rand_unitary(gk, 2, True)
+            elif rng.random() < 0.4:
                 lab = rng.choice(one)
                 q = (rng.randrange(N),)
             else:
@@ -1114,11 +1240,14 @@ def circuit_stream(ctx):
                 params = (round(rng.uniform(-3, 3), 3),)
             elif lab == "FSIM":
                 params = (round(rng.uniform(-3, 3), 3), round(rng.uniform(-3, 3), 3))
-            gates.append([lab, list(params), list(q)])
+            gates.append([lab, list(params) if raw is None else [[str(x) for x in row] for row in raw.tolist()], list(q)])
             payload = {"N": N, "gates": gates}
             adj = len(q) == 2 and abs(q[0] - q[1]) == 1
             try:
-                circ.apply_gate(lab, *params, *q)
+                if raw is not None:
+                    circ.apply_gate_raw(raw, list(q))
+                else:
+                    circ.apply_gate(lab, *params, *q)
             except Exception as e:
                 ctx.violation(f"CircuitMPS:{lab}:raised", f"CircuitMPS.apply_gate({lab}) raised {type(e).__name__}: {str(e)[:120]}", payload)
                 ok = False
@@ -1132,6 +1261,22 @@ def circuit_stream(ctx):
             if bad:
                 cls = lab if lab != "SWAP" else ("SWAP:adjacent" if adj else "SWAP:distant")
                 ctx.violation(f"CircuitMPS:{cls}:stale_record", f"CircuitMPS after {lab}{q}: record {rec} but " + "; ".join(bad[:2]), payload)
+                ok = False
+                break
+            # consumers of the record in the circuit layer: the norm-based fidelity / error estimate
+            psid = dense_of(psi)
+            n2 = float(np.vdot(psid, psid).real)
+            try:
+                fe, ee = float(circ.fidelity_estimate()), float(circ.error_estimate())
+            except Exception as e:
+                ctx.violation("CircuitMPS:fidelity_estimate:raised", f"fidelity_estimate raised {type(e).__name__}: {str(e)[:120]}", payload)
+                ok = False
+                break
+            isrange = isinstance(rec, tuple) and rec[0] != rec[1]
+            ctx.bump("circuit_fidelity_estimate" + (":range_record" if isrange else ""))
+            if abs(fe - n2) > TOL_VAL * max(1.0, n2) or abs(ee - (1 - n2)) > TOL_VAL * max(1.0, n2):
+                ctx.violation("CircuitMPS:fidelity_estimate" + (":range_record" if isrange else ""),
+                              f"CircuitMPS.fidelity_estimate {fe} / error_estimate {ee} with record {rec}; dense <psi|psi> = {n2}", payload)
                 ok = False
                 break
         if not ok:
